@@ -370,8 +370,8 @@ def clause_iteration_paths(cases, ctx: Ctx):
             mk = lambda n: DQN(buffer_size=64 * n, learning_starts=2, num_envs=n, num_steps=Tn, batch_size=4, target_update_interval=c["interval"], learning_rate=c["lr"], gamma=0.9)
             aN, a1 = mk(N), mk(1)
             _PATHS[sk] = (
-                eqx.filter_jit(lambda e, p, k: aN.reset(e, p, key=k, callback=cb)), eqx.filter_jit(lambda st, k: aN.iteration(st, key=k, callback=cb)),
-                eqx.filter_jit(lambda e, p, k: a1.reset(e, p, key=k, callback=cb)), eqx.filter_jit(lambda st, k: a1.iteration(st, key=k, callback=cb)),
+                eqx.filter_jit(lambda e, p, k, aN=aN: aN.reset(e, p, key=k, callback=cb)), eqx.filter_jit(lambda st, k, aN=aN: aN.iteration(st, key=k, callback=cb)),
+                eqx.filter_jit(lambda e, p, k, a1=a1: a1.reset(e, p, key=k, callback=cb)), eqx.filter_jit(lambda st, k, a1=a1: a1.iteration(st, key=k, callback=cb)),
             )
         resetN, itN, reset1, it1 = _PATHS[sk]
         stN = resetN(env, pol, jr.key(c["key"]))
